@@ -18,6 +18,7 @@ import (
 	"github.com/dominant-strategies/go-quai/core"
 	"github.com/dominant-strategies/go-quai/core/rawdb"
 	"github.com/dominant-strategies/go-quai/core/types"
+	"github.com/dominant-strategies/go-quai/ethdb"
 	"pgregory.net/rapid"
 
 	"verifharness/sim"
@@ -32,7 +33,7 @@ type outcome struct {
 
 // crashAt starts a zone node on the database content after k log entries and evaluates the
 // property's clauses. window = the zone-order blocks whose writes lie in the explored log range.
-func crashAt(n *sim.Net, l *sim.OpLog, k int, window []*sim.Block, finalTip *types.WorkObject, want *sim.ChainState) (out outcome) {
+func crashAt(n *sim.Net, l *sim.OpLog, k int, window []*sim.Block, finalTip *types.WorkObject, want *sim.ChainState, nodeOpts sim.NodeOpts) (out outcome) {
 	db := l.Materialise(k, sim.ZoneLoc)
 	var nd *sim.Node
 	defer func() {
@@ -44,7 +45,7 @@ func crashAt(n *sim.Net, l *sim.OpLog, k int, window []*sim.Block, finalTip *typ
 		}
 	}()
 	var err error
-	nd, err = sim.StartNode(sim.ZoneLoc, db, sim.NodeOpts{})
+	nd, err = sim.StartNode(sim.ZoneLoc, db, nodeOpts)
 	if err != nil {
 		return outcome{"restart-error", fmt.Sprintf("crash point %d: node does not open: %v", k, err)}
 	}
@@ -90,11 +91,56 @@ func crashAt(n *sim.Net, l *sim.OpLog, k int, window []*sim.Block, finalTip *typ
 	return outcome{}
 }
 
+// crashNow evaluates the head clauses of the property at the current end of the write log: a
+// crash at this very moment. It is used when a step of the live history fails: if the database
+// as it is on disk does not describe its own head (say, because an attempt to append a block
+// failed after part of its effects had been flushed), that is a violation at a real crash
+// point of a real history; otherwise the failure is the harness's and stays inconclusive.
+func crashNow(n *sim.Net, l *sim.OpLog, nodeOpts sim.NodeOpts) (out outcome) {
+	k := l.Len()
+	db := l.Materialise(k, sim.ZoneLoc)
+	var nd *sim.Node
+	defer func() {
+		if r := recover(); r != nil {
+			out = outcome{"restart-panic", fmt.Sprintf("crash point %d (end of the log, after a failed step): panic/fatal while restarting: %v\n%s", k, r, trimStack(string(debug.Stack())))}
+		}
+		if nd != nil {
+			go func(n *sim.Node) { time.Sleep(300 * time.Millisecond); n.Stop() }(nd)
+		}
+	}()
+	var err error
+	nd, err = sim.StartNode(sim.ZoneLoc, db, nodeOpts)
+	if err != nil {
+		return outcome{"restart-error", fmt.Sprintf("crash point %d (end of the log, after a failed step): node does not open: %v", k, err)}
+	}
+	n.AttachZoneReadOnly(nd)
+	head := nd.Core.CurrentHeader()
+	if head == nil {
+		return outcome{"no-head", fmt.Sprintf("crash point %d: no head after restart", k)}
+	}
+	if fp, msg := sim.CheckHeadCommitment(nd); fp != "" {
+		return outcome{"head-inconsistent/" + fp, fmt.Sprintf("crash point %d (end of the log, after a failed step of the live history): the reported head #%d %x does not describe the stored state: %s", k, head.NumberU64(sim.Zone), head.Hash().Bytes()[:6], msg)}
+	}
+	return outcome{}
+}
+
 func TestC11_CrashPoints(t *testing.T) {
+	caseNo := 0
 	rapid.Check(t, func(t *rapid.T) {
+		caseNo++
+		// The node flushes a write batch early once it holds more than ethdb.IdealBatchSize
+		// (100 KiB); the simulator's blocks and state changes are far smaller, so those
+		// size-triggered flushes (trie database, index writers) would never happen and the
+		// crash points between them would never be explored. Two cases out of three lower
+		// the threshold (a variable under the verif build tag) so that they do.
+		batchSize := []int{100 * 1024, 2048, 256}[(caseNo+stats.Shard())%3]
+		defer func(v int) { ethdb.IdealBatchSize = v }(ethdb.IdealBatchSize)
+		ethdb.IdealBatchSize = batchSize
+		index := rapid.Bool().Draw(t, "indexAddressUtxos")
 		l := &sim.OpLog{}
 		opt := sim.Options{}
 		opt.Nodes[sim.Zone].DB = sim.NewLoggedDB(sim.ZoneLoc, l)
+		opt.Nodes[sim.Zone].IndexAddressUtxos = index
 		n, err := sim.NewNet(opt)
 		if err != nil {
 			t.Fatalf("HARNESS: net: %v", err)
@@ -104,14 +150,24 @@ func TestC11_CrashPoints(t *testing.T) {
 		if err := a.Prelude(); err != nil {
 			t.Fatalf("HARNESS: prelude: %v", err)
 		}
+		// a failing step of the live history: first ask whether the database, as it is on disk
+		// at this moment, still describes its head (see crashNow); only then blame the harness
+		liveFail := func(what string, act *sim.Actor, err error) {
+			if o := crashNow(n, l, sim.NodeOpts{IndexAddressUtxos: index}); o.fp != "" {
+				stats.Violation(t, part, "C11/"+o.fp, fmt.Sprintf("live step failed (%s: %v) with flush threshold %d; %s", what, err, batchSize, o.msg),
+					map[string]any{"history": act.Log, "failed_step": what, "error": err.Error(), "flush_threshold": batchSize, "log_around_crash_point": describeLog(l, l.Len()-4, l.Len())})
+				t.SkipNow()
+			}
+			t.Fatalf("HARNESS: %s: %v\n%s", what, err, strings.Join(act.Log, "\n"))
+		}
 		step := func(act *sim.Actor, order int) *sim.Block {
 			if err := act.Adopt(); err != nil {
-				t.Fatalf("HARNESS: adopt: %v", err)
+				liveFail("adopt", act, err)
 			}
 			act.Traffic(t)
 			b, err := act.MineRandomOrder(t, order)
 			if err != nil {
-				t.Fatalf("HARNESS: mine: %v\n%s", err, strings.Join(act.Log, "\n"))
+				liveFail("mine", act, err)
 			}
 			return b
 		}
@@ -122,7 +178,7 @@ func TestC11_CrashPoints(t *testing.T) {
 		for i, k := 0, rapid.IntRange(0, 8).Draw(t, "warmup"); i < k; i++ {
 			if trimMode {
 				if err := a.Adopt(); err != nil {
-					t.Fatalf("HARNESS: adopt: %v", err)
+					liveFail("adopt", a, err)
 				}
 				a.QiTraffic(t)
 			}
@@ -131,7 +187,7 @@ func TestC11_CrashPoints(t *testing.T) {
 		if trimMode {
 			for i := 0; i < 14; i++ {
 				if err := a.Adopt(); err != nil {
-					t.Fatalf("HARNESS: adopt: %v", err)
+					liveFail("adopt", a, err)
 				}
 				due, any := a.TrimDue()
 				if any && due == 0 {
@@ -144,7 +200,7 @@ func TestC11_CrashPoints(t *testing.T) {
 			}
 		}
 		if err := a.Adopt(); err != nil {
-			t.Fatalf("HARNESS: adopt: %v", err)
+			liveFail("adopt", a, err)
 		}
 		// ---- explored window: zone-order blocks only (a standalone zone node can resume them) ----
 		lo := l.Len()
@@ -157,7 +213,7 @@ func TestC11_CrashPoints(t *testing.T) {
 			window = append(window, step(a, sim.Zone))
 		}
 		if err := a.Adopt(); err != nil {
-			t.Fatalf("HARNESS: adopt: %v", err)
+			liveFail("adopt", a, err)
 		}
 		marks = append(marks, l.Len())
 		final := a
@@ -169,7 +225,7 @@ func TestC11_CrashPoints(t *testing.T) {
 				window = append(window, step(forkActor, sim.Zone))
 			}
 			if err := forkActor.Adopt(); err != nil {
-				t.Fatalf("HARNESS: adopt: %v", err)
+				liveFail("adopt", forkActor, err)
 			}
 			final = forkActor
 			marks = append(marks, l.Len())
@@ -191,7 +247,7 @@ func TestC11_CrashPoints(t *testing.T) {
 		}
 		inside := 0
 		for k := lo; k <= hi; k++ {
-			o := crashAt(n, l, k, window, finalTip, want)
+			o := crashAt(n, l, k, window, finalTip, want, sim.NodeOpts{IndexAddressUtxos: index})
 			if !isMark[k] {
 				inside++
 			}
@@ -202,7 +258,7 @@ func TestC11_CrashPoints(t *testing.T) {
 				return
 			}
 		}
-		labels := []string{}
+		labels := []string{fmt.Sprintf("flush_threshold:%d", batchSize), fmt.Sprintf("address_index:%v", index)}
 		if reorg {
 			labels = append(labels, "reorg_in_window")
 		}
